@@ -287,33 +287,54 @@ def run(ctx: Ctx, rs: RuleSet, tier: str):
              'children are visited in flatten order', 3)
   call_f = ctx.func('fiddle._src.daglish.State.call')
   rets = [n for n in walk_function(call_f.node) if isinstance(n, ast.Return)]
-  ok = bool(rets) and all(
-      isinstance(r.value, ast.Call) and isinstance(
-          r.value.func, ast.Attribute) and r.value.func.attr == 'apply' and
-      unparse(r.value.func.value) == f'{call_f.params[0]}.traversal' and
-      r.value.args and isinstance(r.value.args[0], ast.Name) and
-      r.value.args[0].id == call_f.params[1] for r in rets)
+  new_states = []
+
+  def is_apply(r):
+    v = roles.deref(call_f, r.value) if r.value is not None else None
+    if not (isinstance(v, ast.Call) and isinstance(
+        v.func, ast.Attribute) and v.func.attr == 'apply' and len(
+            v.args) == 2 and not v.keywords):
+      return False
+    recv = roles.deref(call_f, v.func.value)
+    if unparse(recv) != f'{call_f.params[0]}.traversal':
+      return False
+    if not (isinstance(v.args[0], ast.Name) and
+            v.args[0].id == call_f.params[1]):
+      return False
+    new_states.append(roles.deref(call_f, v.args[1]))
+    return True
+
+  ok = bool(rets) and all(is_apply(r) for r in rets)
   rs.check(ok, rule, f'{call_f.qualname}:apply',
            'State.call returns self.traversal.apply(value, new_state)',
            ctx.loc(call_f, call_f.node))
   # new state carries the value and extended path
-  ok = False
-  for c in ctx.calls(call_f):
-    if p.resolve(c.func, call_f) == 'fiddle._src.daglish.State' and len(
-        c.args) >= 3:
-      path_arg = c.args[1]
-      ok = (isinstance(c.args[2], ast.Name) and
-            c.args[2].id == call_f.params[1] and
-            isinstance(path_arg, ast.Tuple) and len(path_arg.elts) == 2 and
-            all(isinstance(e, ast.Starred) for e in path_arg.elts) and
-            unparse(path_arg.elts[0].value).endswith('current_path'))
+  ok = bool(new_states)
+  for c in new_states:
+    b = ctx.bound_args(c, call_f) if isinstance(c, ast.Call) and p.resolve(
+        c.func, call_f) == 'fiddle._src.daglish.State' else None
+    names = list(b) if b else []
+    good = False
+    if b and len(names) >= 3:
+      path_arg = roles.deref(call_f, b[names[1]])
+      trav = roles.deref(call_f, b[names[0]])
+      good = (unparse(trav) == f'{call_f.params[0]}.traversal' and
+              isinstance(b[names[2]], ast.Name) and
+              b[names[2]].id == call_f.params[1] and
+              isinstance(path_arg, ast.Tuple) and len(path_arg.elts) == 2 and
+              all(isinstance(e, ast.Starred) for e in path_arg.elts) and
+              unparse(path_arg.elts[0].value) == (
+                  f'{call_f.params[0]}.current_path') and
+              len(call_f.params) > 2 and unparse(
+                  path_arg.elts[1].value) == call_f.params[2])
+    ok = ok and good
   rs.check(ok, rule, f'{call_f.qualname}:state',
            'the child state holds the child value and current_path + element',
            ctx.loc(call_f, call_f.node))
   fm = ctx.func('fiddle._src.daglish.State._flattened_map_children')
   # new_subvalues = [self.call(v, pe) for v, pe in zip(subvalues, path_elements)]
   ok = False
-  for n in walk_function(fm.node):
+  for n in roles.both_forms(fm):
     if isinstance(n, ast.ListComp) and isinstance(n.elt, ast.Call) and (
         isinstance(n.elt.func, ast.Attribute) and n.elt.func.attr == 'call'):
       gen = n.generators[0]
